@@ -48,6 +48,8 @@ class Job:
     flags: list = field(default_factory=list)     # extra cbmc flags
     overflow: bool = True          # signed-overflow check (off for language int arithmetic)
     remove_bodies: list = field(default_factory=list)
+    unwinding_assertions: bool = True
+    gen_bodies: bool = False       # every function left without a body returns an arbitrary value (environment)
     src_flags: dict = field(default_factory=dict)     # {repo-relative source: [extra goto-cc flags]} (e.g. -include a modelling header)
     src_remove_bodies: list = field(default_factory=list)  # removed from the real TUs before linking (harness supplies the body)
     timeout: int = 120
@@ -165,6 +167,10 @@ def build_job(job):
             rc, so, se = sh(['goto-instrument', '--generate-function-body', '^' + fn + '$', '--generate-function-body-options', 'nondet-return', gb, gb], timeout=120)
         if rc != 0:
             return 'goto-instrument failed: ' + se[-2000:]
+    if job.gen_bodies:
+        rc, so, se = sh(['goto-instrument', '--generate-function-body', '.*', '--generate-function-body-options', 'nondet-return', gb, gb], timeout=300)
+        if rc != 0:
+            return 'goto-instrument --generate-function-body failed: ' + se[-1500:]
     job.gb = gb
     # drop --unwindset entries that name functions absent from this binary (cbmc rejects unknown identifiers);
     # an absent function cannot be unwound at all, so nothing is lost
@@ -199,7 +205,7 @@ def show_loops(gb):
 
 
 def cbmc_cmd(job, extra=()):
-    cmd = ['cbmc', job.gb, '--function', job.entry, '--unwinding-assertions',
+    cmd = ['cbmc', job.gb, '--function', job.entry] + (['--unwinding-assertions'] if job.unwinding_assertions else []) + [
            '--drop-unused-functions', '--no-malloc-may-fail', '--object-bits', str(job.object_bits),
            '--undefined-shift-check', '--div-by-zero-check']
     if job.pointer_overflow:
@@ -357,6 +363,20 @@ def run_one_smt(job, t0):
     """E4: export the VC of one property as SMT2, decide with z3 and cvc5 (answers must agree)."""
     smt = os.path.join(scratch(), os.path.basename(job.gb) + '.smt2')
     extra = ['--smt2', '--outfile', smt]
+    if job.smt_property and not re.match(r'^[A-Za-z_][A-Za-z0-9_]*\.[a-z_]+\.\d+$', job.smt_property):
+        # resolve a description substring to the property identifier
+        rc, so, se = sh(cbmc_cmd(job, ['--show-properties']), timeout=120)
+        pid = None
+        cur = None
+        for line in so.splitlines():
+            m = re.match(r'^Property (\S+):', line)
+            if m: cur = m.group(1)
+            elif cur and job.smt_property in line:
+                pid = cur; break
+        if not pid:
+            job.status, job.detail = 'inconclusive', 'could not resolve property "%s"' % job.smt_property
+            return job
+        job.smt_property = pid
     if job.smt_property:
         extra += ['--property', job.smt_property]
     rc, so, se = sh(cbmc_cmd(job, extra), timeout=job.timeout)
@@ -364,6 +384,9 @@ def run_one_smt(job, t0):
         job.status, job.detail = 'inconclusive', 'smt export failed rc=%s %s' % (rc, (so + se)[-1500:])
         return job
     txt = open(smt).read().replace('(set-logic QF_AUFBV)', '(set-logic ALL)')
+    cs = txt.find('(check-sat)')
+    if cs >= 0:
+        txt = txt[:cs] + '(check-sat)\n'      # CBMC appends (get-value ...) commands that are errors after unsat
     open(smt, 'w').write(txt)
     answers = {}
     t1 = time.time()
